@@ -230,6 +230,13 @@ class Interp:
                     if default is None:
                         raise Expected("KeyError", f"inject('{key}') without provider or default (python render)")
                     inst2.injected[key] = default
+                if self.collect_errors:
+                    # (its own Class.render() calls run in ITS get_context_data(), before its template)
+                    for target in cls2.get("pyrender", []):
+                        try:
+                            self.eval([["pyecho", target]], (), inst2, {}, frozenset(), depth + 1, False, ())
+                        except Expected as e:
+                            self.errors.append((e.exc_class, e.why))
                 inst2.tenv = (("data", f"D{n[1]}", dict(cls2.get("data", {}))),)
                 inst2.dyn_ancestors = [i.cname for i in self.render_stack]
                 self.render_stack.append(inst2)
